@@ -753,3 +753,81 @@ func checkIteration(x *Exec, r *Rig, p concParams, setup []opRec, recs [][]opRec
 		}
 	}
 }
+
+// checkDeadlineSetters (C11/C12): a SetRefreshableAfter / SetExpiresAfter issued while a load or reload of the key
+// is in flight is not lost. The clock does not move in these scenarios, so the deadline an entry may end with is
+// either the one the setter asked for, or the one a successful install recomputed after it (policies that
+// recompute on that kind of install only).
+func checkDeadlineSetters(x *Exec, r *Rig, p concParams, recs [][]opRec) {
+	lbl := "@" + p.Label
+	now := r.Clock.now
+	for _, rs := range recs {
+		for _, rc := range rs {
+			f := opFields(rc.op)
+			if (f[0] != "sra" && f[0] != "sea") || rc.res.Panic != "" {
+				continue
+			}
+			k, d := atoi(f[1]), atoi64(f[2])
+			other := false
+			for _, rs2 := range recs {
+				for _, o := range rs2 {
+					g := opFields(o.op)
+					switch g[0] {
+					case "set", "sia", "cw", "ci", "cia", "cipw", "cipi", "inv", "invall", "adv", "sra", "sea":
+						if o.call != rc.call && (g[0] == "invall" || g[0] == "adv" || atoi(g[1]) == k) && (g[0] != "sra" && g[0] != "sea" || g[0] == f[0]) {
+							other = true
+						}
+					}
+				}
+			}
+			if other {
+				continue
+			}
+			ent, ok := r.C.GetEntryQuietly(k)
+			if !ok {
+				continue
+			}
+			installed := false // a load of k produced the value the cache now holds
+			for _, lc := range r.Loads {
+				if v, sup := lc.Out[k]; sup && lc.Err == "" && containsKey(lc.Keys, k) && v == ent.Value {
+					installed = true
+				}
+			}
+			if installed && (f[0] == "sra" && p.Cfg.Refresh == "creating" || f[0] == "sea" && p.Cfg.Expiry == "creating") {
+				// an install under a creation-only policy carries the deadline it read from the old entry over to the
+				// new one; a setter that lands between that read and the swap is overwritten. The listed properties
+				// do not order a setter against a concurrent install, so this outcome is not judged (DESIGN.md §7).
+				x.Count("setter-vs-install-not-judged")
+				continue
+			}
+			x.Count("setters-during-flight")
+			if f[0] == "sra" && p.Cfg.Refresh != "" {
+				want := []int64{now + d}
+				if installed && p.Cfg.Refresh == "writing" {
+					want = append(want, now+p.Cfg.RefreshTTL)
+				}
+				if !containsI64(want, ent.RefreshableAtNano) {
+					x.Fail("setter-lost", "SetRefreshableAfter"+lbl, "%q returned, no other write to key %d, yet the entry is refreshable at %d (clock %d); expected one of %v", rc.op, k, ent.RefreshableAtNano, now, want)
+				}
+			}
+			if f[0] == "sea" && p.Cfg.Expiry != "" {
+				want := []int64{now + d}
+				if installed && p.Cfg.Expiry == "writing" {
+					want = append(want, now+p.Cfg.TTL)
+				}
+				if !containsI64(want, ent.ExpiresAtNano) {
+					x.Fail("setter-lost", "SetExpiresAfter"+lbl, "%q returned, no other write to key %d, yet the entry expires at %d (clock %d); expected one of %v", rc.op, k, ent.ExpiresAtNano, now, want)
+				}
+			}
+		}
+	}
+}
+
+func containsI64(xs []int64, v int64) bool {
+	for _, e := range xs {
+		if e == v {
+			return true
+		}
+	}
+	return false
+}
